@@ -28,7 +28,8 @@ Record case := mkCase { c_maxc : Z; c_phases : list phase }.
 
 (* ---------------- decidable equalities ---------------- *)
 Definition transport_eqb a b := match a, b with Pipe, Pipe | Tcp, Tcp => true | _, _ => false end.
-Definition rkind_eqb a b := match a, b with RErr, RErr | RTimeout, RTimeout | RHandlerErr, RHandlerErr | RPanic, RPanic => true | _, _ => false end.
+Definition rkind_eqb a b := match a, b with RErr, RErr | RTimeout, RTimeout | RHandlerErr, RHandlerErr | RPanic, RPanic
+  | RPanicNil, RPanicNil | RPanicErr, RPanicErr | RPanicCustom, RPanicCustom | RGoexit, RGoexit => true | _, _ => false end.
 Definition wkind_eqb a b := match a, b with WErr, WErr | WTimeout, WTimeout => true | _, _ => false end.
 Definition act_eqb a b := match a, b with
   | Send x o, Send y p => zlist_eqb x y && Bool.eqb o p
@@ -215,7 +216,7 @@ Proof.
   - destruct po; [|discriminate]. inversion H; subst; reflexivity.
   - destruct (po && negb pr); [|discriminate]. inversion H; subst; reflexivity.
   - destruct po; [|discriminate]. destruct (rl && negb rc && co); inversion H; subst; reflexivity.
-  - destruct (match k with RHandlerErr | RPanic => po | _ => true end); [|discriminate]. inversion H; subst; reflexivity.
+  - destruct (match k with RErr | RTimeout => true | _ => po end); [|discriminate]. inversion H; subst; reflexivity.
   - inversion H; subst; reflexivity.
   - destruct sl; cbn in H; [|discriminate]. destruct q0 as [|x r].
     + destruct qc; [|discriminate]. unfold leave_send, quit in H. cbn in H. destruct ex; inversion H; subst; reflexivity.
